@@ -66,3 +66,9 @@ package sys
 // arriving during the load finds the entry and waits on its lock instead of loading a second instance
 //@ func (*CachedLocations).Open
 //@   assert[C17+C12.entry_published_before_the_load] at "cl.Get(ctx, sys, name, check)": (ttl != Never || ctl.CachePending) ==> has(cls.locs, name) && cls.locs[name] == cl
+
+// C17 (decided by C11's lockset run): a location is instantiated only through the cache - the uncached open runs only under
+// the lock of a cache entry (CachedLocation.Get), so that every request for a name meets the one cached instance and no
+// second instance writes behind its back.
+//@ func (*System).OpenLocation
+//@   requires[C17+C11.uncached_open_only_under_an_entry_lock] holdsSome(sys.CachedLocation.Mutex)
